@@ -69,6 +69,9 @@ def generate(seed, tier):
     # equation) only once every economy of the model exists
     case['loginfo'] = [i for i in range(len(econs)) if S['swarm'].random() < 0.4] if S['swarm'].random() < 0.4 else []
     case['late'] = S['swarm'].random() < 0.3
+    # the seeded scheduler may interleave the declarations of the economies (each keeps its own order; an external
+    # sector may then appear anywhere): a region can join its federation after another economy's country exists
+    case['interleave'] = S['schedule'].randrange(1 << 30) if S['swarm'].random() < 0.3 else None
     return case
 
 
@@ -97,6 +100,10 @@ def simplify(case):
         if case.get('late'):
             c = core.deep_copy(case)
             c['late'] = False
+            yield c
+        if case.get('interleave') is not None:
+            c = core.deep_copy(case)
+            c['interleave'] = None
             yield c
         for i in (case.get('loginfo') or []):
             c = core.deep_copy(case)
@@ -270,6 +277,14 @@ def economy_ops(e, T, tight, standalone):
         for op in sub:
             if op['op'] == 'Region' and op['code'] == 'GOV':
                 op['currency'] = 'FED_' + code
+    # every country / region states its currency explicitly (the one it resolves to when the economy is alone): the
+    # library's default for a Region is "the currency of whichever country was declared last in the model", which
+    # is a statement about the declaration order, not about the economy
+    from .. import econref
+    decl = econref.declare(sub)
+    for op in sub:
+        if op['op'] in ('Country', 'Region') and op.get('currency') is None and op['id'] in decl.countries:
+            op['currency'] = decl.countries[op['id']]['currency']
     out = []
     pre = 'e_%s_' % code
     for op in sub:
@@ -352,10 +367,26 @@ def execute_embed(case, stats):
         dump = [{'op': 'LogInfo', 'model': 'm0'}] if i in (case.get('loginfo') or []) else []
         ops = economy_ops(e, T, tight, False) + dump
         parts.append(ops)
-        joint += ops
         lates.append(late_ops(e, ops) if case.get('late') else [])
-    if case.get('external') == 'last':
-        joint.append({'op': 'ExternalSector', 'id': 'ext', 'model': 'm0'})
+    if case.get('interleave') is None:
+        for ops in parts:
+            joint += ops
+        if case.get('external') == 'last':
+            joint.append({'op': 'ExternalSector', 'id': 'ext', 'model': 'm0'})
+    else:
+        import random
+        sched = random.Random('interleave/%d' % case['interleave'])
+        queues = [list(ops) for ops in parts]
+        if case.get('external') == 'last':      # under interleaving: anywhere
+            queues.append([{'op': 'ExternalSector', 'id': 'ext', 'model': 'm0'}])
+        while any(queues):
+            live = [q for q in queues if q]
+            q = live[sched.randrange(len(live))]
+            # run a short burst of one economy's declarations, then switch
+            for _ in range(sched.randint(1, 4)):
+                if q:
+                    joint.append(q.pop(0))
+        stats['probes']['declarations_of_economies_interleaved'] = 1
     for lt in lates:
         joint += lt
     for ops, lt in zip(parts, lates):
